@@ -50,46 +50,22 @@ Lemma ex_program_ok :
   lr_accepts_certified (terms ex_program) = true.
 Proof. repeat split; vm_compute; reflexivity. Qed.
 
-(* ---- witnesses against the unguarded statement ---- *)
+(* ---- the former counterexamples: found by this check on the pinned tree, repaired in /repo,
+   now accepted by lexer model + regenerated tables ---- *)
+
+Definition w_fi := wd s_fi.
+Definition w_if := wd s_if.
+Definition w_bc := wd [98; 61; 99]%N.               (* b=c *)
 
 (* for i ; do echo ; done *)
-Definition wit_for_semi : program := bare (CCompound (KFor w_i ForSemiDo (semi (simple [w_echo]))) []).
+Definition was_for_semi : program := bare (CCompound (KFor w_i ForSemiDo (semi (simple [w_echo]))) []).
 (* V=$$x fi        -- POSIX: a command named fi, run with V set *)
-Definition w_fi := wd s_fi.
-Definition wit_name_after_assignment : program := bare (CSimple [w_var] [SWord w_fi]).
-
-Definition rejected_witness (p : program) : Prop :=
-  wf_words_posix p = true /\ faithful p = true /\ model_accepts p = false.
-
-Lemma wit_for_semi_rejected : rejected_witness wit_for_semi.
-Proof. repeat split; vm_compute; reflexivity. Qed.
-Lemma wit_name_after_assignment_rejected : rejected_witness wit_name_after_assignment.
-Proof. repeat split; vm_compute; reflexivity. Qed.
-
-(* which half is at fault *)
-Lemma grammar_at_fault :
-  shell_lex (tokens wit_for_semi) = Lexed (terms wit_for_semi) /\ lr_accepts (terms wit_for_semi) = false.
-Proof. split; vm_compute; reflexivity. Qed.
-Lemma lexer_at_fault :
-  lr_accepts (terms wit_name_after_assignment) = true /\
-  shell_lex (tokens wit_name_after_assignment) <> Lexed (terms wit_name_after_assignment).
-Proof. split; [vm_compute; reflexivity | vm_compute; discriminate]. Qed.
-
-(* the guard of the partial theorem excludes exactly these two for their own reason *)
-Lemma witnesses_outside_guard :
-  supported wit_for_semi = false /\ wf_words wit_for_semi = true /\
-  supported wit_name_after_assignment = true /\ wf_words wit_name_after_assignment = false.
-Proof. repeat split; vm_compute; reflexivity. Qed.
-
-Lemma full_refuted :
-  ~ (forall p : program, wf_words_posix p = true -> faithful p = true -> model_accepts p = true).
-Proof.
-  intro H. destruct wit_for_semi_rejected as (Hwf & Hf & Hrej).
-  rewrite (H _ Hwf Hf) in Hrej. discriminate.
-Qed.
-
-(* ---- the four witnesses of the pinned tree, repaired in /repo by ad7956e and ce2c6a1:
-   now inside the guard and accepted ---- *)
+Definition was_name_after_assignment : program := bare (CSimple [w_var] [SWord w_fi]).
+(* case x in a ) ;; if ) echo ;; b=c | esac2... : reserved word / assignment-shaped word as pattern *)
+Definition was_reserved_pattern : program :=
+  bare (CCompound (KCase w_x (CICons false w_a [] BNone
+                              (CICons false w_if [w_bc] (BSome (bare (simple [w_echo])))
+                               (CICons false w_bc [] BNone CINil)))) []).
 (* { case x in esac } *)
 Definition was_after_esac : program :=
   bare (CCompound (KBrace (bare (CCompound (KCase w_x CINil) []))) []).
@@ -107,7 +83,11 @@ Definition was_paren_after_case : program :=
 Definition was_initial_counters : program :=
   bare (CSimple [] [SRedir (mkRedir None RGt w_out); SWord w_echo; SWord w_esac]).
 
+Definition former_witnesses : list program :=
+  [was_for_semi; was_name_after_assignment; was_reserved_pattern; was_after_esac;
+   was_pipe_after_case; was_paren_after_case; was_initial_counters].
+
 Lemma repaired_accepted :
-  forallb (fun p => wf_words p && supported p && model_accepts p)
-          [was_after_esac; was_pipe_after_case; was_paren_after_case; was_initial_counters] = true.
+  forallb (fun p => wf_words_posix p && faithful p && model_accepts p && lr_accepts_certified (terms p))
+          former_witnesses = true.
 Proof. vm_compute. reflexivity. Qed.
